@@ -98,6 +98,9 @@ type Item struct {
 	Media []string `json:"media,omitempty"` // media types; empty = all
 	Items []Item   `json:"items,omitempty"`
 	File  string   `json:"file,omitempty"` // import target (key of Doc.Files)
+	// Sp: spelling of the import URL (0 "f.css", 1 "./f.css", 2 absolute "mem://doc/f.css"): the
+	// same resource whatever the spelling
+	Sp int `json:"sp,omitempty"`
 	// raw: literal text the cascade model ignores (the @page rule a layout needs)
 	Raw string `json:"raw,omitempty"`
 }
@@ -112,6 +115,7 @@ type AuthorSheet struct {
 	Kind  string   `json:"kind"`            // style | link
 	Media []string `json:"media,omitempty"` // media attribute; empty = absent
 	File  string   `json:"file,omitempty"`  // link: key of Doc.Files
+	Sp    int      `json:"sp,omitempty"`    // link: spelling of the href (see Item.Sp)
 	Sheet *Sheet   `json:"sheet,omitempty"` // style: content
 }
 
@@ -558,15 +562,16 @@ func (it Item) text(b *strings.Builder) {
 		}
 		b.WriteString("}\n")
 	case "import":
+		u := urlText(it.File, it.Sp)
 		switch it.Var % 4 {
 		case 0:
-			b.WriteString("@import \"" + it.File + "\"")
+			b.WriteString("@import \"" + u + "\"")
 		case 1:
-			b.WriteString("@import url(" + it.File + ")")
+			b.WriteString("@import url(" + u + ")")
 		case 2:
-			b.WriteString("@import url( \"" + it.File + "\" )")
+			b.WriteString("@import url( \"" + u + "\" )")
 		case 3:
-			b.WriteString("@IMPORT '" + it.File + "'")
+			b.WriteString("@IMPORT '" + u + "'")
 		}
 		if len(it.Media) > 0 {
 			b.WriteString(" " + strings.Join(it.Media, ", "))
@@ -577,6 +582,18 @@ func (it Item) text(b *strings.Builder) {
 	default:
 		panic("c03 model: unknown item kind " + it.Kind)
 	}
+}
+
+// urlText spells the URL of a file of the document (all files live in mem://doc/, the base URL of
+// the document and of every sheet).
+func urlText(file string, sp int) string {
+	switch sp % 3 {
+	case 1:
+		return "./" + file
+	case 2:
+		return "mem://doc/" + file
+	}
+	return file
 }
 
 func (s *Sheet) text() string {
@@ -598,7 +615,7 @@ func (e *Elem) html(b *strings.Builder, d *Doc) {
 			media = " media=\"" + strings.Join(a.Media, ", ") + "\""
 		}
 		if a.Kind == "link" {
-			b.WriteString("<link rel=\"stylesheet\" href=\"" + a.File + "\"" + media + ">")
+			b.WriteString("<link rel=\"stylesheet\" href=\"" + urlText(a.File, a.Sp) + "\"" + media + ">")
 		} else {
 			b.WriteString("<style" + media + ">\n" + a.Sheet.text() + "</style>")
 		}
